@@ -10,7 +10,7 @@ import math
 TITLE = 'Scalings are order-preserving, invertible and NaN-blind'
 EXPLORER = 'E1'
 CLAUSES = ['C19.monotone', 'C19.roundtrip', 'C19.minmax_unit', 'C19.min_range', 'C19.step_continuous',
-           'C19.nan_blind', 'C19.all_nan', 'C19.reference', 'C19.data_rescaled', 'C19.series_index']
+           'C19.nan_blind', 'C19.all_nan', 'C19.reference', 'C19.data_rescaled', 'C19.series_index', 'C19.history_free']
 RULE = ('one case per scaling configuration (shift-and-scale: scale x shift; minmax-scale: min_range; '
         'step-scale: every strictly increasing step list of length 0..4 over {1000,8000,14000,20000} x '
         'every scale tuple over {1,100,500}); inside it every array of length 1..L over the value '
@@ -55,6 +55,12 @@ def cases(tier):
     for mr in (0.0, 0.01, 0.05, 1.0):
         out.append({'mode': 'minmax-scale', 'kwargs': {'min_range': mr}, 'L': L, 'alphabet': 'close'})
     out.append({'mode': 'series', 'kwargs': {}, 'L': L})
+    # histories: every scale tuple for one step list, one after the other in ONE process (forwards, then backwards), and the
+    # shift-and-scale / min-max configurations one after the other on different arrays: a scaling depends on its arguments only
+    for k in range(1, 4 if tier == 'quick' else 5):
+        for steps in itertools.combinations(STEP_POOL, k):
+            out.append({'mode': 'history', 'kwargs': {}, 'steps': list(steps), 'L': L})
+    out.append({'mode': 'history', 'kwargs': {}, 'steps': None, 'L': L})
     return out
 
 
@@ -89,6 +95,8 @@ def run_case(case):
         return data_rescaled_case(case)
     if mode == 'series':
         return series_case(case)
+    if mode == 'history':
+        return history_case(case)
     A = alphabet() if case.get('alphabet') != 'close' else [float('nan'), 9000.0, 9000.02, 9000.05, 9000.05000001, 0.5, 0.50000004]
     res = {'n': 0, 'clauses': {}, 'digests': set(), 'violations': []}
     cl = res['clauses']
@@ -211,6 +219,70 @@ def run_case(case):
                 viol('C19.step_continuous', [below, s, s + 1.0], {'f(below)': float(a), 'f(step)': float(b), 'triple': [float(v) for v in c]})
     res['digests'] = sorted(res['digests'])
     res['sample'] = {'case': case, 'executions': res['n']}
+    return res
+
+
+def history_case(case):
+    """A sequence of apply_scaling calls in one process; every call is judged against the analytic reference, so a result that depends
+    on an EARLIER call (memoised offsets, remembered shift / range) shows at the first call it corrupts. Replay = the same sequence
+    truncated at that call."""
+    import copy
+    import numpy as np
+    from ampycloud import scaler
+    from ampycloud.plots.tools import get_scaling_kwargs
+    res = {'n': 0, 'clauses': {'C19.history_free': 0}, 'digests': set(), 'violations': []}
+    seq = []
+    if case['steps'] is not None:
+        steps = case['steps']
+        tuples = list(itertools.product(SCALE_POOL, repeat=len(steps) + 1))
+        probe = [0., 250.] + [v for st in steps for v in (float(np.nextafter(st, -np.inf)), st, st + 1.)] + [1e5]
+        for scales in tuples + tuples[::-1]:
+            seq.append(('step-scale', {'steps': list(steps), 'scales': list(scales)}, probe))
+    else:
+        arrays = ([0., 1000., 5000.], [200., 300.], [-500., 1e5, 40.], [7.], [0., 1000., 5000.])
+        for rep in range(2):
+            for arr in arrays:
+                for scale in (0.5, 180.):
+                    seq.append(('shift-and-scale', {'scale': scale}, arr))
+                    seq.append(('shift-and-scale', {'scale': scale, 'shift': 1000.}, arr))
+                for mr in (0., 1000., 30000.):
+                    if mr > 0 or max(arr) > min(arr):
+                        seq.append(('minmax-scale', {'min_range': mr}, arr))
+    if 'stop_at' in case:
+        seq = seq[:case['stop_at'] + 1]
+    for si, (mode, kwargs, lst) in enumerate(seq):
+        arr = np.array(lst, dtype=float)
+        sub = {k: v for k, v in case.items() if k != 'stop_at'}
+        sub['stop_at'] = si
+        res['clauses']['C19.history_free'] += 1
+        try:
+            out = scaler.apply_scaling(arr.copy(), fct=mode, **copy.deepcopy(kwargs))
+            do_kw, undo_kw = get_scaling_kwargs(arr.copy(), mode, copy.deepcopy(kwargs))
+            back = scaler.apply_scaling(np.array(scaler.apply_scaling(arr.copy(), fct=mode, **copy.deepcopy(do_kw)), dtype=float),
+                                        fct=mode, **copy.deepcopy(undo_kw))
+            res['n'] += 3
+        except Exception as e:
+            res['violations'].append({'clause': 'C19.history_free', 'site': f'scaler.{mode}', 'detail': {'call': si, 'kwargs': kwargs, 'raised': repr(e)}, 'sub': sub})
+            break
+        if mode == 'step-scale':
+            exp = [ref_step(float(x), kwargs['steps'], kwargs['scales']) for x in arr]
+        elif mode == 'shift-and-scale':
+            exp = [(x - kwargs.get('shift', max(lst))) / kwargs['scale'] for x in lst]
+        else:
+            lo, hi = min(lst), max(lst)
+            if hi - lo < kwargs['min_range']:
+                mid = (hi + lo) / 2
+                lo, hi = mid - kwargs['min_range'] / 2, mid + kwargs['min_range'] / 2
+            exp = [(x - lo) / (hi - lo) for x in lst]
+        if not all(_close(float(a), float(b)) for a, b in zip(out, exp)) or not all(_close(float(a), float(b)) for a, b in zip(back, lst)):
+            res['violations'].append({'clause': 'C19.history_free', 'site': f'scaler.{mode}',
+                                      'detail': {'call_number': si, 'mode': mode, 'kwargs': kwargs, 'values': lst, 'got': [float(v) for v in out],
+                                                 'expected': [float(v) for v in exp], 'undo(do(x))': [float(v) for v in back],
+                                                 'earlier_calls': [[m, k] for m, k, _ in seq[max(0, si - 3):si]]}, 'sub': sub})
+            break
+        res['digests'].add('%s|%d' % (mode, si))
+    res['digests'] = sorted(res['digests'])
+    res['sample'] = {'case': {k: v for k, v in case.items()}, 'executions': res['n']}
     return res
 
 
